@@ -4,8 +4,10 @@ package main
 
 import (
 	"encoding/binary"
+	"encoding/hex"
 	"fmt"
 	"math/rand"
+	"strings"
 )
 
 var plainContainerTypes = []string{"moov", "trak", "mdia", "minf", "stbl", "dinf", "edts", "mvex", "moof", "traf", "mfra", "udta", "sinf", "schi", "ludt",
@@ -38,7 +40,7 @@ func allModelled(bs []byte, depth int) bool {
 	}
 	typ := string(bs[4:8])
 	if !isPlainContainer(typ) {
-		return modelledBoxes[typ]
+		return modelledBoxes[typ] || !registeredTypes()[typ]
 	}
 	if binary.BigEndian.Uint32(bs) == 1 {
 		return true // rejected before any child is looked at
@@ -69,6 +71,28 @@ func allModelled(bs []byte, depth int) bool {
 		p = p[sz:]
 	}
 	return true
+}
+
+var registeredCache map[string]bool
+
+// registeredTypes: the decoder registry as the model sees it (regenerated from mp4/box.go by the fact extractor); a
+// type outside it is an UnknownBox, which the model keeps verbatim
+func registeredTypes() map[string]bool {
+	if registeredCache != nil {
+		return registeredCache
+	}
+	registeredCache = map[string]bool{}
+	if r := askDriver([]string{"box.registered"}); r != nil {
+		for _, h := range strings.Fields(r[0]) {
+			if b, err := hex.DecodeString(h); err == nil {
+				registeredCache[string(b)] = true
+			}
+		}
+	}
+	if len(registeredCache) == 0 { // no driver: nothing counts as unknown
+		registeredCache["\x00none"] = true
+	}
+	return registeredCache
 }
 
 func treeCase(c *Ctx, which string, bs []byte) {
@@ -205,6 +229,31 @@ func genTrees(c *Ctx, which string, seeds []seedBox) {
 		}
 	}
 	r := rand.New(rand.NewSource(c.Seed*7919 + 13))
+	// boxes of types the registry does not know (UnknownBox: kept verbatim)
+	if reg := registeredTypes(); len(reg) > 1 {
+		for k := 0; k < 16; k++ {
+			t := make([]byte, 4)
+			for i := range t {
+				t[i] = "abcdxyzABCXYZ0189 -_"[r.Intn(20)]
+				if r.Intn(12) == 0 {
+					t[i] = byte(r.Intn(256))
+				}
+			}
+			ts := string(t)
+			if reg[ts] || isPlainContainer(ts) || modelledBoxes[ts] || ts == "mdat" {
+				continue
+			}
+			if _, isContainer := walkContainers[ts]; isContainer {
+				continue
+			}
+			pl := make([]byte, r.Intn(21))
+			r.Read(pl)
+			if len(pool[ts]) == 0 {
+				types = append(types, ts)
+			}
+			pool[ts] = append(pool[ts], wrapBox(ts, pl))
+		}
+	}
 	for it := 0; it < c.N(1500, 30000); it++ {
 		typ := plainContainerTypes[r.Intn(len(plainContainerTypes))]
 		if r.Intn(3) == 0 {
